@@ -1024,9 +1024,10 @@ def mk_server_cfg(args: ArgsType) -> configparser.SectionProxy:
             return False
         # Don't include configs that are the same as defaults
         elif value == lib_cfg.get(opt, DEFAULTS[opt]):
-            # Drop a stale override so that the default is in effect again next time
-            USERCFG.remove_option(server, opt)
-            return False
+            # Leave defaults out of the file - unless the file already says
+            # something for this option (then say it again, so that it is
+            # in effect next time whatever the section / DEFAULT held)
+            return USERCFG.has_option(server, opt)
 
         return True
 
